@@ -126,7 +126,8 @@ def seeded(props, only=None):
                 print("seeded %s: patch does not apply to the current tree (%s)" % (sid, p.stderr.strip()[:200]))
                 ok = False
                 continue
-            rc, out = _run_check(prop, {"EAO_REPO": tmp}, ["--tier", "quick", "--no-evidence"])
+            # (a few changes are only reached beyond the quick budget: meta.json names the run range of the thorough tier to use)
+            rc, out = _run_check(prop, {"EAO_REPO": tmp}, ["--tier", "quick", "--no-evidence"] + list(meta.get("extra_check_args", [])))
         finally:
             shutil.rmtree(tmp, ignore_errors=True)
         line = [l for l in out.splitlines() if l.startswith("minimised") or l.startswith("regression")]
